@@ -274,10 +274,16 @@ def _owned(items):
 
 def _it_take(ex, c, a, d):
     from .exec import ENV_PASS
+    from .builtins import _wr
     it, n = deref(ex, a[0]), deref(ex, a[1])
     if not _is_it(it) or not isinstance(n, IntV) or not isinstance(n.t, int):
         return ENV_PASS
-    return _owned(_rest(ex, it)[:n.t])
+    items = _rest(ex, it)[:n.t]
+    if isinstance(a[0], RefV):
+        # `(&mut iter).take(n)`: the taken items leave the underlying iterator (the adaptor is consumed right away by every caller in /repo: `.take(n).for_each(..)`)
+        lst, pos = it.fields
+        _wr(ex, a[0], AggV((lst, IntV(pos.t + len(items), "usize")), it.ty))
+    return _owned(items)
 
 
 def _it_skip(ex, c, a, d):
